@@ -100,7 +100,7 @@ class PayoutMonitor(Monitor):
 
 
 def make_monitors():
-    return [PayoutMonitor()]
+    return [driver.Observer(), PayoutMonitor()]
 
 
 def gen_kwargs(rng):
